@@ -27,3 +27,14 @@ package dawn
 //@   ensures  fail-nil: result.1 != nil ==> result.0 == nil
 //@   callsite Call: assert only-when-absent: holds(c.m) && !has(c.entries, key)
 //@   modifies heap, call_failed
+
+// C20: two successful invocations of the callable for one key are impossible. The callable runs
+// only inside a write-locked section that observed the key absent (callsite only-when-absent) and a
+// successful section ends with the key present (post same-value is proved after the release, so it
+// is stable under rely `grow`); critical sections are serialised, and entries only grow.
+//@ lemma C20-once int <<<
+//@ (declare-fun has1 (Str) Bool) (declare-fun has2 (Str) Bool) (declare-const k Str)
+//@ (assert (has1 k))                                   ; end of the first successful section (post same-value)
+//@ (assert (forall ((x Str)) (=> (has1 x) (has2 x))))  ; rely grow between the two sections
+//@ (assert (not (has2 k)))                             ; the second section invoked the callable (callsite only-when-absent)
+//@ >>>
